@@ -209,18 +209,20 @@ def violation_of(resd, kind=None):
 
 
 # --------------------------------------------------------------------------- minimisation
-def minimise(prop, case, prefix, kind, budget_runs=500, budget_s=40.0):
-    """Greedy delta debugging; a candidate is accepted only if the same violation kind recurs when the
-    candidate is executed in a freshly forked process."""
+def minimise(prop, case, prefix, kind, want_sig=None, budget_runs=500, budget_s=40.0):
+    """Greedy delta debugging; a candidate is accepted only if a violation of the same kind AND the same
+    culprit signature recurs when the candidate is executed in a freshly forked process (so that shrinking
+    cannot drift from an unknown violation into an open known finding of the same kind, or back)."""
     t0 = time.time()
     runs = [0]
 
     def fails(c, pre):
         runs[0] += 1
         try:
-            return violation_of(run_isolated(prop, c, pre), kind) is not None
+            resd = run_isolated(prop, c, pre)
         except HarnessError:
             return False
+        return any(v["kind"] == kind and prop.signature(c, v) == want_sig for v in resd["violations"])
 
     def out_of_budget():
         return runs[0] >= budget_runs or time.time() - t0 > budget_s
@@ -332,9 +334,10 @@ def triage(prop, base_seed, tier, raw, batch_start, known):
         if violation_of(run_isolated(prop, case, prefix), kind) is None:
             reproducible = False
     if reproducible:
-        small, prefix, nruns = minimise(prop, case, prefix, kind)
+        sig0 = prop.signature(case, raw["result"]["violations"][0])
+        small, prefix, nruns = minimise(prop, case, prefix, kind, want_sig=sig0)
         final = run_isolated(prop, small, prefix)
-        v = violation_of(final, kind)
+        v = next((x for x in final["violations"] if x["kind"] == kind and prop.signature(small, x) == sig0), None) or violation_of(final, kind)
     else:
         small, nruns, final = case, 0, raw["result"]
         v = raw["result"]["violations"][0]
